@@ -21,6 +21,9 @@ ADSORBATES = {
     'N2': dict(molecular_diameter=0.3, polarizability=1.7403e-3, magnetic_susceptibility=3.6e-8, surface_density=6.71e18, liquid_density=0.8064, adsorbate_molar_mass=28.0134),
     'Ar': dict(molecular_diameter=0.336, polarizability=1.6411e-3, magnetic_susceptibility=3.24e-8, surface_density=8.52e18, liquid_density=1.3954, adsorbate_molar_mass=39.948),
     'CO2-like': dict(molecular_diameter=0.323, polarizability=2.911e-3, magnetic_susceptibility=5.0e-8, surface_density=7.68e18, liquid_density=1.10, adsorbate_molar_mass=44.01),
+    # light gases: magnetic susceptibilities an order of magnitude smaller (in nm3, like the others)
+    'H2-like': dict(molecular_diameter=0.29, polarizability=0.8e-3, magnetic_susceptibility=6.6e-9, surface_density=9.0e18, liquid_density=0.071, adsorbate_molar_mass=2.016),
+    'He-like': dict(molecular_diameter=0.26, polarizability=0.2e-3, magnetic_susceptibility=3.1e-9, surface_density=1.1e19, liquid_density=0.125, adsorbate_molar_mass=4.0026),
 }
 USER_ADSORBENT = dict(molecular_diameter=0.3, polarizability=1.5e-3, magnetic_susceptibility=5.0e-8, surface_density=2.0e19)
 
@@ -276,6 +279,20 @@ def check_entry(ctx):
                     f'psd_microporous({model},{geom},{lim}) on data starting with the (0, 0) point: widths {list(numpy.round(ww, 4)) if with_o.ok else with_o.brief()} / volumes '
                     f'{list(numpy.round(with_o.value["pore_volume_cumulative"], 5)) if with_o.ok else ""}; the same data without that point give widths {list(numpy.round(wo, 4)) if with_o.ok else ""} / volumes '
                     f'{list(numpy.round(without.value["pore_volume_cumulative"], 5))} (expected: identical for the positive-pressure points)', {}))
+    # an explicit adsorbate parameter set given to the entry point is the one used (another density / molar-mass convention than the database's)
+    for tag, over in (('other liquid density', dict(liquid_density=0.70)), ('other density and molar mass', dict(liquid_density=1.05, adsorbate_molar_mass=30.0)),
+                      ('other diameter', dict(molecular_diameter=0.34))):
+        ads2 = dict(ads, **over)
+        o = core.call(pgc.psd_microporous, iso, psd_model='HK', pore_geometry='slit', p_limits=(None, None), adsorbate_model=dict(ads2), timeout=600)
+        low = core.call(psd_micro.psd_horvath_kawazoe, p, n, 77.355, 'slit', ads2, get_hk_model('Carbon(HK)'), False)
+        ev += 1
+        if not low.ok:
+            continue
+        nt += 1
+        if not o.ok or core.relerr(o.value['pore_widths'], low.value[0]) > 1e-9 or core.relerr(o.value['pore_volume_cumulative'], low.value[2]) > 1e-9:
+            ctx.violate(core.make_violation({'check': 'explicit-adsorbate-model-not-used', 'what': tag},
+                                            f'psd_microporous(HK, slit, adsorbate_model=<{tag}>): volumes {list(o.value["pore_volume_cumulative"][:3]) if o.ok else o.brief()[:100]} / widths '
+                                            f'{list(o.value["pore_widths"][:3]) if o.ok else ""} but the low-level function with that parameter set gives {list(low.value[2][:3])} / {list(low.value[0][:3])}', {}))
     # a ModelIsotherm as input, stored in relative or in absolute pressure: each reported cumulative volume belongs to the reported width
     from pygaps.modelling import get_isotherm_model
     cN2 = ru.ads_consts(a.backend_name, 77.355)
@@ -369,8 +386,8 @@ def run(ctx):
         ctx.violate(r['viol'])
         ctx.track('published_slit_equation', r['worst_pub'], 1e-4)
     check_entry(ctx)
-    ctx.cov['domain_sizes'] = {'analyses': len(jobs), 'models': 4, 'geometries': 3, 'adsorbents': 4, 'adsorbates': 3, 'temperatures': 4, 'profiles': 2, 'points_per_analysis': 12}
-    ctx.cov['rule'] = ('4 models x 3 geometries x 4 adsorbent sets x 3 adsorbate sets x 4 temperatures x 2 loading profiles x 12 pressures (quick: a quarter of the '
+    ctx.cov['domain_sizes'] = {'analyses': len(jobs), 'models': 4, 'geometries': 3, 'adsorbents': 4, 'adsorbates': 5, 'temperatures': 4, 'profiles': 2, 'points_per_analysis': 12}
+    ctx.cov['rule'] = ('4 models x 3 geometries x 4 adsorbent sets x 5 adsorbate sets x 4 temperatures x 2 loading profiles x 12 pressures (quick: a quarter of the '
                        'adsorbent x adsorbate x temperature product per model x geometry, RY-cylinder only in thorough); for HK-slit the pressures are generated from a width lattice by '
                        'the independently implemented published equation; every solved width is compared with a 250-1500 point scan of the solver bracket.')
     ctx.require('analyses', len(jobs), 100)
